@@ -45,6 +45,22 @@ func vh04Corpus() [][]vhsrvReq {
 		{v, {T: "Tauth", N: []uint64{1, 0}, S: vhsrvH("u", "")}, {T: "Tattach", N: []uint64{0, 3, 0}, S: vhsrvH("u", "")}, at, {T: "Tattach", N: []uint64{1, nf, 0}, S: vhsrvH("u", "/d1/s1")},
 			{T: "Tlopen", N: []uint64{1, 0}}, {T: "Treadlink", N: []uint64{1}}, {T: "Treadlink", N: []uint64{0}}, w(0, 2, "k1"), {T: "Tlopen", N: []uint64{2, 0}}, {T: "Tremove", N: []uint64{0}},
 			at, w(0, 3, "d1", "f1"), {T: "Trename", N: []uint64{3, 0}, S: vhsrvH("f2")}, {T: "Trename", N: []uint64{0, 0}, S: vhsrvH("f2")}, {T: "Tremove", N: []uint64{3}}, {T: "Tother", N: []uint64{121}}, {T: "Tflush", N: []uint64{7}}},
+		// "only if its type can be opened": fids whose recorded type is none of the openable ones.  An xattr fid
+		// (Txattrwalk records no type) before and after the fid it was walked from is opened; a root and a walked
+		// file for which the backend reported a mode WITHOUT type bits / with an unknown type; every other type once
+		{v, at, w(0, 1, "f1"), {T: "Txattrwalk", N: []uint64{1, 2}, S: vhsrvH("user.a")}, {T: "Tlopen", N: []uint64{2, 0}}, {T: "Tlopen", N: []uint64{2, 2}},
+			{T: "Tlopen", N: []uint64{1, 0}}, {T: "Tlopen", N: []uint64{2, 0}}, {T: "Tread", N: []uint64{2, 0, 4}}, {T: "Tclunk", N: []uint64{2}},
+			{T: "Txattrwalk", N: []uint64{1, 2}, S: vhsrvH("")}, {T: "Tlopen", N: []uint64{2, 1}}, {T: "Tclunk", N: []uint64{2}},
+			{T: "Tattach", N: []uint64{3, nf, 0}, S: vhsrvH("u", ""), FaultAns: &vhsrvAns{Valid: true, Mode: 0o644, Qids: []uint64{7}}, FaultCall: 1},
+			{T: "Tlopen", N: []uint64{3, 0}}, {T: "Treaddir", N: []uint64{3, 0, 64}}, {T: "Tclunk", N: []uint64{3}},
+			{T: "Twalkgetattr", N: []uint64{0, 4}, S: vhsrvH("f2"), FaultAns: &vhsrvAns{Valid: true, Mode: 0o170000 | 0o600, Qids: []uint64{8}}, FaultCall: 0},
+			{T: "Tlopen", N: []uint64{4, 0}}, {T: "Tclunk", N: []uint64{4}},
+			w(0, 4, "s1"), {T: "Tlopen", N: []uint64{4, 0}}, w(0, 4, "k1"), {T: "Tlopen", N: []uint64{4, 0}}, w(0, 4, "p1"), {T: "Tlopen", N: []uint64{4, 0}},
+			w(0, 4, "b1"), {T: "Tlopen", N: []uint64{4, 0}}, w(0, 4, "c1"), {T: "Tlopen", N: []uint64{4, 0}}, {T: "Tlopen", N: []uint64{4, 0}}},
+		// clunk with a pending xattr create whose size does not match / whose SetXattr fails: the fid is unbound all the same
+		{v, at, w(0, 1, "f1"), {T: "Txattrcreate", N: []uint64{1, 4, 0}, S: vhsrvH("user.a")}, {T: "Twrite", N: []uint64{1, 0, 2}}, {T: "Tclunk", N: []uint64{1}}, {T: "Tgetattr", N: []uint64{1, 1}}, {T: "Tclunk", N: []uint64{1}},
+			w(0, 1, "f1"), {T: "Txattrcreate", N: []uint64{1, 3, 0}, S: vhsrvH("user.a")}, {T: "Twrite", N: []uint64{1, 0, 3}},
+			{T: "Tclunk", N: []uint64{1}, FaultAns: &vhsrvAns{Err: []vhsrvLeaf{{"L", 28}}}, FaultMeth: vhsrvMSetXattr + 1}, {T: "Tgetattr", N: []uint64{1, 1}}, {T: "Tclunk", N: []uint64{1}}},
 	}
 }
 
@@ -106,6 +122,12 @@ func TestVerifC04(t *testing.T) {
 		h.ID = fmt.Sprintf("corpus-%d", i)
 		out.Emit(h)
 	}
+	// two Tlopen in flight together on one fid (gated backend Open)
+	for i := 0; i < 4; i++ {
+		p := vh04Par(seed+int64(i), i)
+		p.ID = fmt.Sprintf("par-%d", i)
+		out.Emit(p)
+	}
 	n := 110
 	if vhThorough() {
 		n = 600
@@ -116,4 +138,38 @@ func TestVerifC04(t *testing.T) {
 		h.ID = fmt.Sprintf("gen-%d-%d", seed, i)
 		out.Emit(h)
 	}
+}
+
+// vh04Par: Tversion, Tattach, Twalk to a regular file, then Tlopen A and Tlopen B on that fid so that B is received
+// while A is inside File.Open.  variant 1, 3: A's Open fails (B may then open); variant 2, 3: B is a duplicate of A's flags.
+func vh04Par(seed int64, variant int) vhsrvPar {
+	r := vhRandSeed(seed)
+	w := vhsrvNewWorld(r, 1)
+	w.b.errProb = 0
+	w.b.weirdProb = 0
+	defer w.close()
+	nf := uint64(noFID)
+	for _, q := range []vhsrvReq{{T: "Tversion", N: []uint64{8192}, S: vhsrvH("9P2000.L")}, {T: "Tattach", N: []uint64{0, nf, 0}, S: vhsrvH("u", "")},
+		{T: "Twalk", N: []uint64{0, 1}, S: vhsrvH("f1")}} {
+		if q.S == nil {
+			q.S = []string{}
+		}
+		if _, err := w.do(q); err != nil {
+			return vhsrvPar{Kind: "par", Steps: []vhsrvStep{}, Calls: []vhsrvCall{}}
+		}
+	}
+	qa := vhsrvReq{T: "Tlopen", N: []uint64{1, 0}, S: []string{}}
+	qb := vhsrvReq{T: "Tlopen", N: []uint64{1, 2}, S: []string{}}
+	if variant&1 == 1 {
+		qa.FaultAns = &vhsrvAns{Err: []vhsrvLeaf{{"L", 13}}}
+	}
+	if variant&2 == 2 {
+		qb.N[1] = 0
+	}
+	p, err := w.doPar(qa, qb, vhsrvMOpen, 150*time.Millisecond)
+	if err != nil {
+		p.Steps = []vhsrvStep{}
+		p.Gated = false
+	}
+	return p
 }
